@@ -106,6 +106,8 @@ def handle (line : String) : String :=
   let (inp, impl) := splitAt "=>" fs
   match inp with
   | "bad" :: _ => handleBad inp impl
+  -- the same cases over HTTP/2 (the protocol version enters neither the model nor the property)
+  | "bad2" :: _ => (handleBad inp impl).replace "class=" "class=h2-"
   | ["fl", id, hook, sh, _label, ents] =>
     -- the hooks inside catch_unwind: a panic is a failure of the property
     match sh.toNat?.bind shape, parseEntries ents with
